@@ -127,6 +127,68 @@ LSC1 = _lsc("region-r1", True)
 LSC2 = _lsc("no-region-r1", False)
 
 
+@contract(f"{ST}::load_store_chunk", spec="region-r0", props=["C25"])
+class load_store_chunk_r0:
+    """a 0-d block (its block index is the empty tuple) stored with a region: the one element store goes to `out[region]`,
+    not to `out[()]` -- the region is all there is to say where a 0-d source lands in a larger target"""
+    params = {"x": "obj:Blk", "out": "obj:Target", "index": "const", "region": "tup:int", "lock": "none", "return_stored": "bool",
+              "load_stored": "bool"}
+    consts = {"index": ()}
+    fields = {"Blk": {"size": "int"}, "Target": {}, "View": {}}
+    result = None
+    externals = {"is_arraylike": _ext_is_arraylike, "np.asanyarray": _ext_asanyarray}
+    havoc = {"out[index]": "obj:View"}
+    raises = {}
+
+    def requires(x, out, index, region, lock, return_stored, load_stored):
+        return x.get("size") >= 0
+
+    def ensures(result, x, out, index, region, lock, return_stored, load_stored, env=None, calls=None):
+        from pyvc.spec import TupV, ObjV
+        if isinstance(x, ObjV):
+            stores = _stores(env)
+            size = x.get("size")
+            if len(stores) == 0:
+                return {"a-non-empty-block-is-written": size == 0}
+            if len(stores) > 1:
+                return {"written-exactly-once": False}
+            _, target, base, key, value, _line = stores[0]
+            ok = {"written-exactly-once": True, "only-non-empty-blocks-are-written": size != 0,
+                  "the-target-is-out-and-the-value-is-the-block": (base is out) and (value is x)}
+            ka = list(key.items) if isinstance(key, TupV) else None
+            ok["written-at-the-region"] = ka is not None and len(ka) == 1 and S.val(ka[0]) == S.val(S.item(region, 0))
+            return ok
+        log, size = result
+        if size == 0:
+            return {"a-non-empty-block-is-written": log == []}
+        return {"written-exactly-once": len(log) == 1, "written-at-the-region": len(log) == 1 and tuple(log[0]) == tuple(region)}
+
+    def call(fn, x, out, index, region, lock, return_stored, load_stored):
+        import numpy as np
+
+        class Target:
+            def __init__(self):
+                self.log = []
+
+            def __setitem__(self, key, value):
+                self.log.append(key if isinstance(key, tuple) else (key,))
+
+            def __getitem__(self, key):
+                return None
+
+        t = Target()
+        blk = np.zeros(()) if x.get("size") else np.zeros((0,))
+        fn(blk, t, index, region, lock, return_stored, load_stored)
+        return t.log, blk.size
+
+    def domain(tier, rng):
+        from pyvc.concrete import Rec
+        for r in (0, 3, 7):
+            for size in (0, 1):
+                yield {"x": Rec(size=size), "out": Rec(), "index": (), "region": (r,), "lock": None, "return_stored": False,
+                       "load_stored": False}
+
+
 # ---------------------------------------------------------------------------
 # which scheduler runs the writes: in-memory targets must be written in this process
 # ---------------------------------------------------------------------------
